@@ -691,7 +691,12 @@ impl TypeEntry {
             }
 
             TypeEntryDetails::Boolean => true,
-            TypeEntryDetails::Integer(_) => true,
+            // The std::num::NonZero* types have Display and FromStr, but no
+            // Default.
+            TypeEntryDetails::Integer(name) => {
+                impl_name != TypeSpaceImpl::Default
+                    || !name.starts_with(crate::convert::STD_NUM_NONZERO_PREFIX)
+            }
             TypeEntryDetails::Float(_) => true,
             TypeEntryDetails::String => true,
 
